@@ -198,3 +198,57 @@ Theorem nonvoid_correct r : nonvoid r = true <-> exists w, matches r w.
 Proof.
   rewrite nonvoid_lang. split; intros (w & H); exists w; apply matches_iff_lang; exact H.
 Qed.
+
+(* ---------- the translation of the parsed AST preserves its language ---------- *)
+Lemma re_ind' (P : re -> Prop) :
+  (forall b text off, P (RLit b text off)) -> (forall cs off, P (RCC cs off)) ->
+  (forall mn mx s, P s -> P (RRep mn mx s)) ->
+  (forall l, Forall P l -> P (RCat l)) -> (forall l, Forall P l -> P (RAlt l)) ->
+  (forall name off, P (RExt name off)) -> forall r, P r.
+Proof.
+  intros H1 H2 H3 H4 H5 H6. fix go 1. intros r. destruct r as [b text off|cs off|mn mx s|l|l|name off].
+  - apply H1.
+  - apply H2.
+  - apply H3. apply go.
+  - apply H4. induction l as [|x l IH]; constructor; [apply go|exact IH].
+  - apply H5. induction l as [|x l IH]; constructor; [apply go|exact IH].
+  - apply H6.
+Qed.
+
+Lemma mem_single c x : mem c [(x, x)] = true <-> c = x.
+Proof.
+  unfold mem, in_range. cbn [existsb fst snd]. rewrite orb_false_r, andb_true_iff, !Z.leb_le. lia.
+Qed.
+
+Lemma lang_lit syms : forall w, lang (fold_right (fun c acc => cat (Sym [(c, c)]) acc) Eps syms) w <-> w = syms.
+Proof.
+  induction syms as [|c syms IH]; intros w; cbn [fold_right].
+  - cbn [lang]. reflexivity.
+  - rewrite lang_cat. cbn [lang]. split.
+    + intros (u & v & -> & (c' & -> & Hm) & Hv). apply mem_single in Hm. apply IH in Hv. subst. reflexivity.
+    + intros ->. exists [c], syms. split; [reflexivity|]. split; [exists c; split; [reflexivity|apply mem_single; reflexivity]|apply IH; reflexivity].
+Qed.
+
+Theorem rx_of_correct r : forall w, lang (rx_of r) w <-> re_lang r w.
+Proof.
+  induction r as [b text off|cs off|mn mx s IH|l IH|l IH|name off] using re_ind'; intros w.
+  - cbn [rx_of re_lang]. apply lang_lit.
+  - reflexivity.
+  - cbn [rx_of re_lang lang]. split; intros (ws & E & HF & Hc); exists ws; (split; [exact E|]); (split; [|exact Hc]);
+      (eapply Forall_impl; [|exact HF]); intros x Hx; apply IH; exact Hx.
+  - cbn [rx_of re_lang]. revert w. induction IH as [|x l Hx _ IHl]; intros w.
+    + reflexivity.
+    + rewrite lang_cat. cbn [lang]. split; intros (u & v & E & Hu & Hv); exists u, v; (split; [exact E|]);
+        (split; [apply Hx; exact Hu|apply IHl; exact Hv]).
+  - cbn [rx_of re_lang]. induction IH as [|x l Hx _ IHl].
+    + reflexivity.
+    + rewrite lang_alt. cbn [lang]. rewrite Hx, IHl. reflexivity.
+  - cbn [rx_of re_lang]. destruct (list_eq_dec Z.eq_dec name [101; 111; 105]) as [E|N]; cbn [lang].
+    + split.
+      * intros (c & -> & Hm). apply mem_single in Hm. subst. auto.
+      * intros (_ & ->). exists eoi_sym. split; [reflexivity|apply mem_single; reflexivity].
+    + split; [contradiction|]. intros (E & _). contradiction.
+Qed.
+
+Corollary rx_of_matches r w : matches (rx_of r) w <-> re_lang r w.
+Proof. rewrite matches_iff_lang. apply rx_of_correct. Qed.
